@@ -374,7 +374,10 @@ class TdmsSegment(object):
         """
         reader = self._get_data_reader()
         for chunk in reader.read_data_chunks(file, data_objects, num_chunks):
+            # Other reads may move the file position while this generator is suspended
+            next_chunk_position = file.tell()
             yield chunk
+            file.seek(next_chunk_position)
 
     def _read_channel_data_chunks(self, file, data_objects, channel_path, chunk_offset, stop_chunk, chunk_size):
         """ Read multiple data chunks for a single channel at once
